@@ -924,3 +924,8 @@ func (m *Machine) IsEventStackType(n *types.Named) bool {
 	return m.eventStackT != nil && n == m.eventStackT
 }
 func (m *Machine) IsEventProcessor(f *types.Func) bool { return f != nil && f == m.eventProc }
+
+// StepField / DataField: the fields of the scanner that hold the current step function
+// and the input bytes (anchors for rules outside this package).
+func (m *Machine) StepField() *types.Var { return m.stepField }
+func (m *Machine) DataField() *types.Var { return m.dataField }
